@@ -8523,6 +8523,18 @@ pub fn recover_from_frames_and_commits(
     let mut recovered = Vec::new();
     let mut last_committed_lsn = None;
     for commit in commits {
+        // Commit markers must tile the frame sequence: each one starts right
+        // after the previously recovered LSN range (the first one at the first
+        // frame). A repeated, overlapping or reordered marker would return a
+        // transaction twice or out of order; a gap means a marker was lost and
+        // the frames it covered would be skipped silently.
+        let expected_first_lsn = match last_committed_lsn {
+            Some(lsn) => Lsn::checked_next(lsn),
+            None => frames.iter().map(|frame| frame.header.lsn).min(),
+        };
+        if expected_first_lsn != Some(commit.first_lsn) {
+            return Err(WalValidationError::LsnContinuityMismatch.into());
+        }
         let tx_frames: Vec<WalFrame> = frames
             .iter()
             .filter(|frame| {
